@@ -17,6 +17,7 @@
 use crate::engine::{catch, decode, fail, Ctx, Fail, Hx, R};
 use crate::oracle::dd::DD;
 use crate::oracle::quad;
+use compute::distributions::Distribution1D as _;
 use compute::distributions::{
     Bernoulli, Beta, Binomial, ChiSquared, Continuous, Discrete, DiscreteUniform, Exponential, Gamma, Gumbel, Mean, Normal, Pareto,
     Poisson, Uniform, Variance, MVN, T,
@@ -155,7 +156,101 @@ pub enum Lib {
 }
 
 impl Lib {
+    /// "Every valid parameter setting" includes settings reached through `update` and the setters, so two
+    /// thirds of the objects are not constructed directly: they start from another valid parameter vector
+    /// and are moved to `p` by a bulk `update` (route 1) or by the individual setters (route 2; laws with
+    /// two-sided bounds use `update`, because a single bound may legitimately be rejected against the old
+    /// other bound). The route is a pure function of the parameters. A density that caches anything derived
+    /// from its parameters must refresh it on every route.
     pub fn new(d: D, p: &[f64]) -> Result<Lib, Fail> {
+        let route = (Hx::new().fs(p).finish() % 3) as u8;
+        if route == 0 {
+            return Lib::direct(d, p);
+        }
+        let start: Vec<f64> = match d {
+            D::Normal => vec![-3.0, 2.5],
+            D::Gamma => vec![3.5, 0.75],
+            D::Beta => vec![2.5, 0.75],
+            D::ChiSquared => vec![7.0],
+            D::T => vec![7.5],
+            D::Pareto => vec![3.5, 0.25],
+            D::Gumbel => vec![2.0, 3.5],
+            D::Exponential => vec![0.25],
+            D::Uniform => vec![-4.0, 9.0],
+            D::Poisson => vec![50.0],
+            D::Binomial => vec![23.0, 0.3],
+            D::Bernoulli => vec![0.3],
+            D::DiscreteUniform => vec![-4.0, 9.0],
+        };
+        let mut l = Lib::direct(d, &start)?;
+        let pv = p.to_vec();
+        let bounds = matches!(d, D::Uniform | D::DiscreteUniform);
+        let r = catch(std::panic::AssertUnwindSafe(|| {
+            if route == 1 || bounds {
+                match &mut l {
+                    Lib::Normal(o) => o.update(&pv),
+                    Lib::Gamma(o) => o.update(&pv),
+                    Lib::Beta(o) => o.update(&pv),
+                    Lib::ChiSquared(o) => o.update(&pv),
+                    Lib::T(o) => o.update(&pv),
+                    Lib::Pareto(o) => o.update(&pv),
+                    Lib::Gumbel(o) => o.update(&pv),
+                    Lib::Exponential(o) => o.update(&pv),
+                    Lib::Uniform(o) => o.update(&pv),
+                    Lib::Poisson(o) => o.update(&pv),
+                    Lib::Binomial(o) => o.update(&pv),
+                    Lib::Bernoulli(o) => o.update(&pv),
+                    Lib::DiscreteUniform(o) => o.update(&pv),
+                }
+            } else {
+                match &mut l {
+                    Lib::Normal(o) => {
+                        o.set_mu(pv[0]).set_sigma(pv[1]);
+                    }
+                    Lib::Gamma(o) => {
+                        o.set_beta(pv[1]).set_alpha(pv[0]).set_beta(pv[1]);
+                    }
+                    Lib::Beta(o) => {
+                        o.set_alpha(pv[0]).set_beta(pv[1]);
+                    }
+                    Lib::ChiSquared(o) => {
+                        o.set_dof(pv[0] as usize);
+                    }
+                    Lib::T(o) => {
+                        o.set_dof(pv[0]);
+                    }
+                    Lib::Pareto(o) => {
+                        o.set_minval(pv[1]).set_alpha(pv[0]);
+                    }
+                    Lib::Gumbel(o) => {
+                        o.set_beta(pv[1]).set_mu(pv[0]);
+                    }
+                    Lib::Exponential(o) => {
+                        o.set_lambda(pv[0]);
+                    }
+                    Lib::Poisson(o) => {
+                        o.set_lambda(pv[0]);
+                    }
+                    Lib::Binomial(o) => {
+                        o.set_p(pv[1]).set_n(pv[0] as u64);
+                    }
+                    Lib::Bernoulli(o) => {
+                        o.set_p(pv[0]);
+                    }
+                    Lib::Uniform(_) | Lib::DiscreteUniform(_) => {}
+                }
+            }
+        }));
+        match r {
+            Ok(()) => Ok(l),
+            Err(m) => fail(
+                format!("C02/{}/reparameterise/panic", d.name()),
+                format!("{}: moving a valid object from {:?} to the valid parameters {:?} by {} panicked: {}", d.name(), start, p, if route == 1 || bounds { "update" } else { "setters" }, m),
+            ),
+        }
+    }
+
+    fn direct(d: D, p: &[f64]) -> Result<Lib, Fail> {
         let r = catch(|| match d {
             D::Normal => Lib::Normal(Normal::new(p[0], p[1])),
             D::Gamma => Lib::Gamma(Gamma::new(p[0], p[1])),
@@ -1080,9 +1175,9 @@ pub fn check_lnpdf(ctx: &mut Ctx, c: &UCase) -> R {
             ensure!(l == f64::NEG_INFINITY, sig("outside-support"), "{}{:?}.ln_pdf({:e}) = {:e} outside the support, expected ln 0 = -inf", d.name(), c.p, x, l);
             continue;
         }
-        if t.zone != Zone::Inside || !t.representable() {
-            continue;
-        }
+        // purely relational clause: wherever the library's own density is a finite positive number — inside
+        // the support or on its boundary (e.g. Beta(1, b) at 0, where the density is b) — the log-density must
+        // be its logarithm; no textbook value is involved, so no representability gate is needed
         let pv = match catch(|| lib.dens(x)) {
             Ok(v) => v,
             Err(_) => continue, // reported by the pdf clause
